@@ -8,7 +8,7 @@
 (* expected to fail; CexInv prints the history that breaks them.             *)
 EXTENDS Dedup, TLC, Json
 
-CONSTANTS Ws, Times, Receivers, MaxLen, AllowClose
+CONSTANTS Frames, Ws, Times, Receivers, MaxLen, AllowClose
 
 RxPerms == Permutations(Receivers)
 
@@ -21,6 +21,8 @@ Next == \/ /\ Len(hist) < MaxLen
         \/ (AllowClose /\ Close)
 
 Spec == Init /\ [][Next]_vars
+
+MonoConstraint == Monotone(hist)      \* attack config restricted to non-decreasing clocks
 
 PropertyLevel == Conservation /\ RecordShape /\ WindowProp /\ MonoProps
 
